@@ -375,7 +375,8 @@ def produce_cex(h, mem_gb):
         f.write(header + test)
     out["cex_file"] = path
     out["replay"] = "printed"
-    out["cex_values"] = [v.strip() for v in re.findall(r"^\s*//\s*(.+)$", test, re.M)][:64]
+    # kani annotates every concrete byte vector with the value it encodes, in kani::any() order
+    out["cex_values"] = [v.strip() for v in re.findall(r"^\s*//\s*(\S.*)\n\s*vec!\[", test, re.M)][:64]
     # ---- native replay in a scratch copy of the crate (cargo kani playback rejects --target-dir;
     #      the copy's .cargo/config.toml and CARGO_TARGET_DIR point the build at /verif/.cache)
     try:
@@ -398,7 +399,9 @@ def produce_cex(h, mem_gb):
         librs = os.path.join(dst, "src", "lib.rs")
         ltxt = open(librs).read()
         os.makedirs(os.path.join(dst, "repo_src"), exist_ok=True)
-        for i, pth in enumerate(sorted(set(re.findall(r'#\[path = "(%s/[^"]+)"\]' % re.escape(REPO), ltxt)))):
+        for i, pth in enumerate(sorted(set(re.findall(r'#\[path = "(/[^"]+)"\]', ltxt)))):
+            if not os.path.isfile(pth):
+                continue
             src_lines = open(pth).read().split("\n")
             cut = next((k for k, l in enumerate(src_lines) if l.rstrip() == "#[cfg(test)]"), len(src_lines))
             cp = os.path.join(dst, "repo_src", "%d_%s" % (i, os.path.basename(pth)))
@@ -424,7 +427,7 @@ def produce_cex(h, mem_gb):
             out["replay"] = "not_reproduced"
         else:
             out["replay_note"] = "playback did not run the test (see replay_log); unit test kept in cex_file"
-        shutil.rmtree(dst, ignore_errors=True)
+        # the scratch copy is kept so that replay_command can be re-run by hand
     except Exception as e:  # noqa
         out["replay_note"] = "replay attempt raised %r" % (e,)
     return out
